@@ -158,30 +158,7 @@ def run(model: Model, rep: Report) -> None:
 
     fresh_state_rule(model, rep, "C12-R9")
     # ---------------------------------------------------------------- R10: interned names are for ever
-    r10 = rep.rule("C12-R10", "WRITESET", "the interned-name tables (PSLiteralTable, PSKeywordTable) only grow: an entry, once made, is never dropped or replaced - module-level constants such as LITERAL_PAGE are compared by identity with names read later", 2)
-    st_cls = model.cls("pdfminer.psparser.PSSymbolTable")
-    stores10 = 0
-    for mname, mf in sorted(st_cls.methods.items()):
-        for n in walk_no_nested(mf.node):
-            txt = None
-            if isinstance(n, ast.Call) and isinstance(n.func, ast.Attribute) and unparse(n.func.value) == "self.dict" and n.func.attr in MUTATORS:
-                txt = unparse(n)
-            elif isinstance(n, ast.Delete) and any(unparse(t).startswith("self.dict") for t in n.targets):
-                txt = unparse(n)
-            elif isinstance(n, (ast.Assign, ast.AnnAssign, ast.AugAssign)):
-                tgts = n.targets if isinstance(n, ast.Assign) else [n.target]
-                for t in tgts:
-                    if unparse(t) == "self.dict" and mname != "__init__":
-                        txt = unparse(n)
-                    elif isinstance(t, ast.Subscript) and unparse(t.value) == "self.dict":
-                        stores10 += 1
-                        g = {"".join(unparse(x).split()) for x, pol in _guard_tests(mf, n) if not pol}
-                        key = unparse(t.slice)
-                        r10.check(any(x == f"{key}inself.dict" for x in g), site(mf, n), mf.qualname, f"`{unparse(n)}` runs only when `{key}` is not in the table yet", why=f"guards {sorted(g)}: an existing entry can be replaced, so a name interned at import time stops being identical to the same name read later")
-            if txt is not None:
-                r10.violation(site(mf, n), mf.qualname, txt, "the table is emptied, shrunk or replaced after construction: constants interned at import time (LITERAL_PAGE, KEYWORD_OBJ, ...) are no longer the objects that later lookups return, so documents read afterwards are understood differently from documents read before")
-    init10 = st_cls.methods.get("__init__")
-    r10.check(init10 is not None and stores10 >= 1, site(init10) if init10 is not None else "pdfminer/psparser.py:0", st_cls.qualname, "the table is created in __init__ and filled by intern only", why="no store found")
+    intern_monotone_rule(model, rep, "C12-R10")
     r11 = rep.rule("C12-R11", "GUARD", "a stream is decoded once: get_data() runs decode() only while no decoded payload is stored (`self.data is None`), whatever that payload is - an empty result is a result", 1)
     gd = model.func("pdfminer.pdftypes.PDFStream.get_data")
     calls11 = [c for c in walk_no_nested(gd.node) if isinstance(c, ast.Call) and (dotted(c.func) or "") == "self.decode"]
@@ -191,6 +168,20 @@ def run(model: Model, rep: Report) -> None:
 
     g11 = guard_conjuncts(gd, calls11[0])
     r11.check(g11 == {"self.dataisNone"}, site(gd, calls11[0]), gd.qualname, "decode() runs under `self.data is None` only", why=f"conditions {sorted(g11)}: with a truth test an empty decoded payload looks undecoded, so the second access of the same (cached) stream decodes again - the result then depends on whether the object was cached")
+    r12 = rep.rule("C12-R12", "WRITESET", "decoding a string with a CMap leaves the CMap as it was: no decode method of the CMap classes stores into self (predefined CMaps are process-wide singletons, so state kept on one is carried into the next string, page and document)", 3)
+    for cq in sorted(model.subclasses("pdfminer.cmapdb.CMapBase")):
+        ci12 = model.classes[cq]
+        if "decode" not in ci12.methods:
+            continue
+        d12 = ci12.methods["decode"]
+        st12 = [n for n in walk_no_nested(d12.node) if isinstance(n, (ast.Attribute, ast.Subscript)) and isinstance(n.ctx, (ast.Store, ast.Del)) and unparse(n).startswith("self.")]
+        r12.check(not st12, site(d12, st12[0]) if st12 else site(d12), d12.qualname, "decode stores nothing into self", why=f"`{unparse(st12[0]) if st12 else ''}`: the result of decoding one string would depend on the strings decoded before it with the same (cached, shared) CMap")
+    r13 = rep.rule("C12-R13", "ORDER", "init_resources starts every content from empty font / XObject / colour-space maps: the four assignments come before any way out of the function (a page without resources must not see the previous page's)", 4)
+    ir = model.func("pdfminer.pdfinterp.PDFPageInterpreter.init_resources")
+    g13 = build_cfg(ir.node, exc_edges=False)
+    for fld in ("resources", "fontmap", "xobjmap", "csmap"):
+        wit = g13.all_path_pass(g13.entry, lambda nd, fld=fld: nd.ast is not None and nd.kind == "stmt" and any(isinstance(t, ast.Attribute) and isinstance(t.ctx, ast.Store) and unparse(t) == "self." + fld for t in ast.walk(nd.ast)))
+        r13.check(wit is None, site(ir), ir.qualname, f"self.{fld} is (re)set on every path through init_resources", why=f"a path leaves init_resources without resetting self.{fld}: a page with no /Resources is rendered with the fonts and XObjects of the page before it when processed in one call, and with none when processed alone")
     # ---------------------------------------------------------------- R1
     r1 = rep.rule("C12-R1", "EFFECTS", "global state inventory: no function writes module/class-level state outside the reviewed memo tables", 20)
     writes = global_writes(model, inv)
@@ -634,3 +625,30 @@ def font_cache_key_rule(model: Model, rep: Report, rid: str) -> None:
     gf = model.func("pdfminer.pdfinterp.PDFResourceManager.get_font")
     sgf = "".join(unparse(gf.node).split())
     r8.check("ifobjidandobjidinself._cached_fonts:" in sgf and "ifobjidandself.caching:self._cached_fonts[objid]=font" in sgf, site(gf), gf.qualname, "get_font consults and fills the cache only for a truthy object number", why="cache guard changed")
+
+
+def intern_monotone_rule(model: Model, rep: Report, rid: str) -> None:
+    r10 = rep.rule(rid, "WRITESET", "the interned-name tables (PSLiteralTable, PSKeywordTable) only grow: an entry, once made, is never dropped or replaced - module-level constants such as LITERAL_PAGE are compared by identity with names read later", 2)
+    st_cls = model.cls("pdfminer.psparser.PSSymbolTable")
+    stores10 = 0
+    for mname, mf in sorted(st_cls.methods.items()):
+        for n in walk_no_nested(mf.node):
+            txt = None
+            if isinstance(n, ast.Call) and isinstance(n.func, ast.Attribute) and unparse(n.func.value) == "self.dict" and n.func.attr in MUTATORS:
+                txt = unparse(n)
+            elif isinstance(n, ast.Delete) and any(unparse(t).startswith("self.dict") for t in n.targets):
+                txt = unparse(n)
+            elif isinstance(n, (ast.Assign, ast.AnnAssign, ast.AugAssign)):
+                tgts = n.targets if isinstance(n, ast.Assign) else [n.target]
+                for t in tgts:
+                    if unparse(t) == "self.dict" and mname != "__init__":
+                        txt = unparse(n)
+                    elif isinstance(t, ast.Subscript) and unparse(t.value) == "self.dict":
+                        stores10 += 1
+                        g = {"".join(unparse(x).split()) for x, pol in _guard_tests(mf, n) if not pol}
+                        key = unparse(t.slice)
+                        r10.check(any(x == f"{key}inself.dict" for x in g), site(mf, n), mf.qualname, f"`{unparse(n)}` runs only when `{key}` is not in the table yet", why=f"guards {sorted(g)}: an existing entry can be replaced, so a name interned at import time stops being identical to the same name read later")
+            if txt is not None:
+                r10.violation(site(mf, n), mf.qualname, txt, "the table is emptied, shrunk or replaced after construction: constants interned at import time (LITERAL_PAGE, KEYWORD_OBJ, ...) are no longer the objects that later lookups return, so documents read afterwards are understood differently from documents read before")
+    init10 = st_cls.methods.get("__init__")
+    r10.check(init10 is not None and stores10 >= 1, site(init10) if init10 is not None else "pdfminer/psparser.py:0", st_cls.qualname, "the table is created in __init__ and filled by intern only", why="no store found")
